@@ -286,8 +286,10 @@ def run(prop, tier, seed, replay=None):
     unjudged = []        # (index, why): the oracle could not be applied — a broken correspondence, never a verdict
     keys = set()
     n_new_failures = 0
+    n_timeouts = 0
     for i, c in enumerate(cases):
-        n_timeouts = sum(1 for o in obss if isinstance(o, dict) and "did not finish within" in str(o.get("harness_error", "")))
+        if obss and isinstance(obss[-1], dict) and "did not finish within" in str(obss[-1].get("harness_error", "")):
+            n_timeouts += 1          # counted as the observations come in (a sum over all of them on every case is quadratic)
         if n_timeouts >= 3:
             # the real code does not come back on case after case: stop here, the verdict is a broken correspondence
             _hist_add(hist, "cases_not_run_after_repeated_timeouts", len(cases) - i)
